@@ -11,6 +11,7 @@ mod report;
 mod runner;
 mod schema;
 mod seeds;
+mod soap;
 mod valgen;
 mod wire;
 
